@@ -38,12 +38,23 @@ func c09prop(ev *evid.Rec) func(rt *rapid.T) {
 		target := rapid.SampledFrom([]string{"root", "Uploads"}).Draw(rt, "target")
 		preexisting := rapid.IntRange(0, 7).Draw(rt, "preexisting") == 0
 		ncuts := rapid.IntRange(0, 4).Draw(rt, "ncuts")
+		// how the client's bytes on the transfer connection are cut into segments ("" = one Write per message)
+		seg := rapid.SampledFrom([]string{"", "", "random", "header", "bytes"}).Draw(rt, "segmentation")
+		segSeed := rapid.Uint64().Draw(rt, "segseed")
 		wireName := macRoman(name)
 		comment := []byte("up")
 		hdrLen := hlsim.UploadHeaderLen(wireName, comment)
 		var cutLog []string
 		ntCase := false
 		inWorld(rt, hlsim.Options{Agreement: "a", PreserveResourceForks: preserve, Accounts: []hlsim.AccountSpec{acct("admin", "Admin", "adminpw", allAccess)}}, func(rt *rapid.T, w *hlsim.World) {
+			if seg != "" {
+				w.NewSplit = func(kind string) hlsim.Splitter {
+					if kind == "xfer" {
+						return &c02split{mode: seg, seed: segSeed}
+					}
+					return nil
+				}
+			}
 			dir := w.FileRoot
 			var path []byte
 			if target == "Uploads" {
@@ -241,7 +252,7 @@ func c09prop(ev *evid.Rec) func(rt *rapid.T) {
 				rt.Fatalf("download of the uploaded file returns different bytes (cuts %v)", cutLog)
 			}
 		})
-		ev.Case(evid.Hash(name, content, forks, fmt.Sprint(cutLog), preserve, target, preexisting), ntCase, fmt.Sprintf("cuts:%d", len(cutLog)), fmt.Sprintf("forks:%d", forks), sizeClass(size), fmt.Sprintf("preexisting:%v", preexisting))
+		ev.Case(evid.Hash(name, content, forks, fmt.Sprint(cutLog), preserve, target, preexisting, seg, segSeed), ntCase, "segmentation:"+seg, fmt.Sprintf("cuts:%d", len(cutLog)), fmt.Sprintf("forks:%d", forks), sizeClass(size), fmt.Sprintf("preexisting:%v", preexisting))
 		if ntCase && ev.WantSample() {
 			ev.Sample(map[string]any{"name": name, "size": size, "forks": forks, "preserve_forks": preserve, "target": target, "cuts(attempt@offset/stream)": cutLog})
 		}
